@@ -11,6 +11,9 @@ Proof. reflexivity. Qed.
 (** a fresh run seeds the global stream with the configuration's random_state (when one is given) *)
 Lemma link_fresh_run_seeds_with_random_state : Gen.Seeding.fresh_init_seeds_with_config_random_state = true.
 Proof. reflexivity. Qed.
+(** no caller inside the package forwards a seed to a routine that seeds the global stream *)
+Lemma link_no_forwarded_seed : Gen.Seeding.seeds_forwarded_to_global_seeding_routines = 0.
+Proof. reflexivity. Qed.
 (** every seeding call is guarded by "is not None" *)
 Lemma link_all_guarded : forallb site_guarded_by_not_none Gen.Seeding.seed_sites = true.
 Proof. reflexivity. Qed.
